@@ -248,7 +248,11 @@ func TestC15(t *testing.T) {
 			return int((seed >> 33) % uint64(n))
 		}
 		msg, nf := c15Program(files, pick, &st)
-		rec.Case(core.Hash(prog.Main), st.incomparable > 0 && st.strict > 0, []string{"profile:" + prog.FeatList()[0]}, func() any {
+		label := "no-feature"
+		if fl := prog.FeatList(); len(fl) > 0 {
+			label = fl[0]
+		}
+		rec.Case(core.Hash(prog.Main), st.incomparable > 0 && st.strict > 0, []string{"profile:" + label}, func() any {
 			return map[string]any{"program_from_first_function": core.Truncate(afterDecls(prog.Main), 40), "functions": nf, "law_instances": st.laws,
 				"incomparable_pairs": st.incomparable, "monotonicity_steps": st.mono, "with_strictly_larger_input": st.strict}
 		})
